@@ -23,7 +23,7 @@ RULE = ("3 of 4 runs: EVSE bench - one generated EVSE (continuous incl. min>0 / 
         "invalid_pilot fault; non-trivial = probe within 2e-3 of a boundary with an EV connected; distinct = (EVSE class, "
         "parameter shape, sequence of probe kinds)")
 PROBES = ["near_boundary_with_ev", "near_boundary_no_ev", "rejected", "accepted_edge", "nan_pilot", "advertised_value",
-          "plugin_occupied", "world_invalid_pilot", "world_rejected_with_ev", "min_gt_zero_evse", "inf_max_evse",
+          "plugin_occupied", "world_invalid_pilot", "world_rejected_with_ev", "min_gt_zero_evse", "inf_max_evse", "advertised_inf_max",
           "finite_without_zero", "finite_unsorted_or_dup"]
 FAULT_DIMENSION = "misbehaving scheduler: out-of-set pilot at an arbitrary call of a run (terminal fault, judged on the rejected station)"
 REAL_VS_STUB = "real: EVSE, DeadbandEVSE, FiniteRatesEVSE, EV, Battery models, ChargingNetwork, Interface, Simulator; ours: probing party"
@@ -56,6 +56,8 @@ def boundaries(e):
 def dist(e, p):
     if p != p:
         return float("inf")
+    if math.isinf(p) and p > 0 and e["type"] != "Finite" and e["max"] is None:
+        return 0.0          # +inf is the advertised maximum of an EVSE built without a finite max_rate
     if e["type"] == "EVSE":
         mx = float("inf") if e["max"] is None else e["max"]
         return max(e.get("min", 0) - p, p - mx, 0.0)
@@ -157,8 +159,8 @@ def check(sc):
                 near = any(abs(v - b) <= 2e-3 for b in boundaries(e)) if v == v else False
                 if near:
                     out.probe("near_boundary_with_ev" if cur_ev is not None else "near_boundary_no_ev")
-                if v == v and math.isinf(v) and cur_ev is not None:
-                    return
+                if v == v and math.isinf(v) and cur_ev is not None and sc["ev"]["battery"]["type"] != "Battery":
+                    return      # an infinite pilot into the two-stage closed form is outside every stated law
                 before = snap()
                 try:
                     evse.set_pilot(v, sc["voltage"], sc["period"])
@@ -195,7 +197,7 @@ def check(sc):
                     for v in vals:
                         out.probe("advertised_value")
                         if math.isinf(v):
-                            continue
+                            out.probe("advertised_inf_max")
                         if e["type"] == "Deadband" and v == evse.min_rate:
                             pass
                         d = dist(e, v)
